@@ -58,6 +58,14 @@ type Rich struct {
 	Sub   Profile  `json:"sub"`
 	Skip  string   `json:"-"`
 	N     int      `json:"n"`
+	Hold  RichHold `json:"hold"`
+	shh   string   `json:"shh"` // unexported, but tagged: absent by either name
+}
+
+// RichHold is a nested struct with a nil and a non-nil pointer-to-struct field.
+type RichHold struct {
+	P *Profile `json:"p"`
+	Q *Profile `json:"q"`
 }
 
 // BuildData builds the data value for an operation. Every string carries the
@@ -84,9 +92,9 @@ func BuildData(d DataSpec) any {
 	}
 	switch d.Shape {
 	case "rich":
-		return Rich{RichBase: RichBase{ID: 7 + d.Variant, Kind: "kind-" + tag}, Title: "Title " + tag, Sub: Profile{City: "sub-" + tag, Zip: 7}, Skip: "skip-" + tag, N: 3}
+		return Rich{RichBase: RichBase{ID: 7 + d.Variant, Kind: "kind-" + tag}, Title: "Title " + tag, Sub: Profile{City: "sub-" + tag, Zip: 7}, Skip: "skip-" + tag, N: 3, Hold: RichHold{Q: &Profile{City: "q-" + tag, Zip: 9}}, shh: "shh"}
 	case "richptr":
-		return &Rich{RichBase: RichBase{ID: 7 + d.Variant, Kind: "kind-" + tag}, Title: "Title " + tag, Sub: Profile{City: "sub-" + tag, Zip: 7}, Skip: "skip-" + tag, N: 3}
+		return &Rich{RichBase: RichBase{ID: 7 + d.Variant, Kind: "kind-" + tag}, Title: "Title " + tag, Sub: Profile{City: "sub-" + tag, Zip: 7}, Skip: "skip-" + tag, N: 3, Hold: RichHold{Q: &Profile{City: "q-" + tag, Zip: 9}}, shh: "shh"}
 	case "strmap":
 		return map[string]string{"a": "sa-" + tag, "title": "st-" + tag}
 	case "intmap":
